@@ -1,4 +1,4 @@
 SPECIFICATION Spec
-CONSTANTS MaxN = 4 MaxV = 3 AnyValues = FALSE AsIs_SortedReturn = FALSE Mut_WrongDirection = TRUE Mut_TieJitter = FALSE Thorough = FALSE
+CONSTANTS MaxN = 3 MaxV = 2 AnyValues = FALSE AsIs_SortedReturn = FALSE Mut_WrongDirection = TRUE Mut_TieJitter = FALSE Thorough = FALSE
 INVARIANT Inv_Monotone
 CHECK_DEADLOCK FALSE
